@@ -13,7 +13,7 @@
 (*                                                                         *)
 (* What is demanded (C02/C04), and nothing more: per time step every       *)
 (* non-frozen axis is swept exactly once and no frozen axis is swept; the  *)
-(* logged dt are positive and add up to T - t0; a sweep uses the step's dt *)
+(* logged dt are positive, follow the documented time-step rule (timescale_factor / max(V,M) at the step's start, cut at T) and add up to T - t0; a sweep uses the step's dt *)
 (* and the parameters of the step's END time; every sweep solves the       *)
 (* documented scheme; the coefficient arrays of the constant-parameter     *)
 (* path equal the scheme's; injection deposits dt*theta0/2 per live        *)
@@ -66,8 +66,18 @@ EvInject ==
                      RAdd(cur[q], RSum([k \in 1..c.P |-> IF k \in Live(c) /\ ix = InjectIx(c.P, k)
                                                           THEN InjectAmount(c.grids, k, dt, th) ELSE "0"]))]
            scale == RSeqMaxAbs(exp)
+           \* the documented time-step rule: timescale_factor / max(V, M) at the parameters in force at the START of the step, the
+           \* smallest over the populations (all of them, or all non-frozen ones: both are covariant under a change of the
+           \* reference size and the same on the constant and the time-function path), cut at the horizon T
+           ruleOver(S) == LET RECURSIVE go(_, _)
+                              go(k, m) == IF k > c.P THEN m
+                                          ELSE IF k \notin S THEN go(k + 1, m)
+                                          ELSE LET v == RDiv(c.tf, MaxVM(k, ParAt(c, k, t))) IN go(k + 1, IF m = "none" THEN v ELSE RMin(m, v))
+                          IN go(1, "none")
+           dtOK(S) == S # {} /\ RCloseRel(dt, RMin(ruleOver(S), RSub(c.T, t)), TauTime, RMul(TauTime, RAdd(RAbs(c.T), RAbs(c.t0))))
            f == F("StepStartsAfterAllAxesSwept", stepdt = "0") \cup
                 F("DtPositive", RPos(dt)) \cup
+                F("StepFollowsTimeStepRule", dtOK(1..c.P) \/ dtOK(NonFrozen(c))) \cup
                 F("DtWithinHorizon", RLeq(RAdd(t, dt), RAdd(c.T, RMul(TauTime, RAbs(c.T))))) \cup
                 F("DensityHandedOver", e.before = cur) \cup
                 F("InjectionIsDocumented", Len(e.after) = Len(cur) /\ AllNum(e.after) /\
